@@ -17,13 +17,18 @@ def configurations(ck, tier):
                  tlc_seed=lib.seed(), workers=4)
     lib.tlc_must_pass(r2, "Honeytrap composition, three filters (-simulate)")
     ck.add_tlc(r2, "Honeytrap: three filters drawn (-simulate)")
-    return r1.scn, r2.scn
+    dedupe = lambda scn: list({json.dumps(s["filters"], sort_keys=True): s for s in scn}.values())
+    return dedupe(r1.scn), dedupe(r2.scn)
 
 
 def run(ck, tier, lab, rng):
     single, multi = configurations(ck, tier)
     pick = (single if tier == "thorough" else rng.sample(single, min(14, len(single)))) + multi
     scs = [{"id": i, "filters": [CATCH_ALL] + s["filters"]} for i, s in enumerate(pick)]
+    if tier == "thorough":
+        # two runs long enough for the sensor's heartbeat (every 30 s) to fall between the connections
+        for s in multi[:2]:
+            scs.append({"id": len(scs), "filters": [CATCH_ALL] + s["filters"], "linger_s": 32})
     results = {r["id"]: r for r in lib.run_sharded(lab, "sys", scs, shards=min(lib.NCPU, 8), timeout=1800)}
     nev = 0
     import concurrent.futures
@@ -42,7 +47,7 @@ def run(ck, tier, lab, rng):
 
 def validate(sc, res):
     lines = res["lines"] or []
-    events = [ln for ln in lines if ln["k"] in ("event", "fatal")]
+    events = [ln for ln in lines if ln["k"] in ("event", "fatal", "heartbeat")]
     token = next((e["token"] for e in events if e.get("token")), "")
     trace = [{"k": "cfg", "filters": sc["filters"], "token": token}] + [{k: v for k, v in ln.items() if k != "proj"} for ln in lines]
     if any(ln["k"] == "stray" for ln in lines) or len(events) < 8:
@@ -61,7 +66,7 @@ def judge(ck, sc, res, v=None):
     if stray:
         ck.disagree("system/event-without-known-source", "%s: event of category %s with source %s" % (desc, stray[0]["cat"], stray[0]["src"]), rp)
         return 0
-    events = [ln for ln in lines if ln["k"] in ("event", "fatal")]       # in bus order: ids 1..n
+    events = [ln for ln in lines if ln["k"] in ("event", "fatal", "heartbeat")]       # in bus order: ids 1..n
     if len(events) < 8:
         raise lib.Infra("whole-server scenario %s: only %d events reached the catch-all channel" % (sc["id"], len(events)))
     if not tr.ok:
@@ -72,7 +77,7 @@ def judge(ck, sc, res, v=None):
         if bad["k"] == "accept":
             ck.disagree("system/routed-to-other-service", "%s: connection %s was expected at %s" % (desc, json.dumps(bad["c"]), bad["svc"]), rp)
         else:
-            kind = "token" if bad.get("token") != token else "delivery"
+            kind = "token" if bad.get("token") != token else ("heartbeat" if bad["k"] == "heartbeat" else "delivery")
             ck.disagree("system/%s" % kind, "%s: event %s of connection %s (category %s) arrived at positions %s - not what Honeytrap.tla prescribes" % (
                 desc, at, bad.get("conn"), "".join(bad.get("cat", [])), bad.get("pos")), dict(rp, line=bad))
         return len(events)
